@@ -1,8 +1,8 @@
 #!/bin/sh
-# runs tools/own6.sh over the given trees (default: all incoming) in N parallel batches; output in /tmp/m6/part.<i>.out
-N=${N:-5}; SRC=${SRC:-/verif/seeded-incoming}; mkdir -p /tmp/m6; rm -f /tmp/m6/part.*
+# runs tools/own6.sh over the given trees (default: all incoming) in N parallel batches; output in ${TD:-/tmp/m6}/part.<i>.out
+N=${N:-5}; SRC=${SRC:-/verif/seeded-incoming}; mkdir -p ${TD:-/tmp/m6}; rm -f ${TD:-/tmp/m6}/part.*
 all=${TREES:-$(ls -d $SRC/C*/[1234] | sed "s#$SRC/\(C..\)/\(.\)#\1-\2#")}
-i=0; for t in $all; do echo $t >> /tmp/m6/part.$((i%N)); i=$((i+1)); done
-for p in $(seq 0 $((N-1))); do [ -f /tmp/m6/part.$p ] && TREES="$(tr '\n' ' ' < /tmp/m6/part.$p)" "$(dirname "$0")/own6.sh" > /tmp/m6/part.$p.out 2>&1 & done
+i=0; for t in $all; do echo $t >> ${TD:-/tmp/m6}/part.$((i%N)); i=$((i+1)); done
+for p in $(seq 0 $((N-1))); do [ -f ${TD:-/tmp/m6}/part.$p ] && TREES="$(tr '\n' ' ' < ${TD:-/tmp/m6}/part.$p)" "$(dirname "$0")/own6.sh" > ${TD:-/tmp/m6}/part.$p.out 2>&1 & done
 wait
-cat /tmp/m6/part.*.out | grep -v WARNING | sort
+cat ${TD:-/tmp/m6}/part.*.out | grep -v WARNING | sort
